@@ -357,7 +357,7 @@ class DFree(WeightingModel):
     """
 
     def supports_block_quality(self):
-        return True
+        return False
 
     def scorer(self, searcher, fieldname, text, qf=1):
         if not searcher.schema[fieldname].scorable:
@@ -376,6 +376,17 @@ class DFreeScorer(WeightLengthScorer):
 
         self.qf = qf
         self.setup(searcher, fieldname, text)
+
+    def supports_block_quality(self):
+        # The score is not monotonic in the weight and the length, so the
+        # score at (max weight, min length) is not an upper bound
+        return False
+
+    def max_quality(self):
+        return float("inf")
+
+    def block_quality(self, matcher):
+        return float("inf")
 
     def _score(self, weight, length):
         return dfree(weight, self.cf, self.qf, length, self.fl)
@@ -432,6 +443,17 @@ class PL2Scorer(WeightLengthScorer):
         self.c = c
         self.qf = qf
         self.setup(searcher, fieldname, text)
+
+    def supports_block_quality(self):
+        # The score is not monotonic in the weight and the length, so the
+        # score at (max weight, min length) is not an upper bound
+        return False
+
+    def max_quality(self):
+        return float("inf")
+
+    def block_quality(self, matcher):
+        return float("inf")
 
     def _score(self, weight, length):
         return pl2(weight, self.cf, self.qf, self.dc, length, self.avgfl,
